@@ -513,4 +513,78 @@ theorem evalScript_elemsOk (H : HashLens) {c : Ctx} {script : Bytes} {stack out 
       cases h
       exact (evalLoop_stOk H c _ _ _ _ ⟨hs, fun e he => by cases he⟩ hl).1
 
+/-! ### the hash opcodes of the model do produce 20 / 32 bytes -/
+
+
+theorem sha256_put32_size (out : ByteArray) (x : UInt32) : (BV.Sha256.put32 out x).size = out.size + 4 := by
+  unfold BV.Sha256.put32
+  simp [ByteArray.size_push]
+
+theorem sha256_size (msg : ByteArray) : (BV.Sha256.hash msg).size = 32 := by
+  unfold BV.Sha256.hash
+  simp [Id.run, ByteArray.emptyWithCapacity]
+  show ByteArray.size (BV.Sha256.put32 _ _) = 32
+  simp only [sha256_put32_size]
+  rfl
+
+theorem sha1_put32_size (out : ByteArray) (x : UInt32) : (BV.Sha1.put32 out x).size = out.size + 4 := by
+  unfold BV.Sha1.put32
+  simp [ByteArray.size_push]
+
+theorem sha1_size (msg : ByteArray) : (BV.Sha1.hash msg).size = 20 := by
+  unfold BV.Sha1.hash
+  simp [Id.run, ByteArray.emptyWithCapacity]
+  show ByteArray.size (BV.Sha1.put32 _ _) = 20
+  simp only [sha1_put32_size]
+  rfl
+
+theorem ripemd160_put32_size (out : ByteArray) (x : UInt32) : (BV.Ripemd160.put32 out x).size = out.size + 4 := by
+  unfold BV.Ripemd160.put32
+  simp [ByteArray.size_push]
+
+theorem ripemd160_size (msg : ByteArray) : (BV.Ripemd160.hash msg).size = 20 := by
+  unfold BV.Ripemd160.hash
+  simp [Id.run, ByteArray.emptyWithCapacity]
+  show ByteArray.size (BV.Ripemd160.put32 _ _) = 20
+  simp only [ripemd160_put32_size]
+  rfl
+
+
+theorem toList_loop_length (bs : ByteArray) (n : Nat) : ∀ i r, bs.size - i = n →
+    (ByteArray.toList.loop bs i r).length = r.length + n := by
+  induction n with
+  | zero =>
+    intro i r h
+    unfold ByteArray.toList.loop
+    have : ¬ i < bs.size := by omega
+    simp [this]
+  | succ k ih =>
+    intro i r h
+    unfold ByteArray.toList.loop
+    have : i < bs.size := by omega
+    simp only [this, if_true]
+    rw [ih (i + 1) _ (by omega)]
+    simp only [List.length_cons]; omega
+
+theorem byteArray_toList_length (bs : ByteArray) : bs.toList.length = bs.size := by
+  unfold ByteArray.toList
+  rw [toList_loop_length bs bs.size 0 [] (by omega)]
+  simp
+
+
+theorem hashLens_holds : HashLens := by
+  have e256 : ∀ b, (BV.C06.sha256 b).length = 32 := fun b => by
+    unfold BV.C06.sha256 BV.Sha256.hashList; rw [byteArray_toList_length, sha256_size]
+  have e1 : ∀ b, (BV.C06.sha1 b).length = 20 := fun b => by
+    unfold BV.C06.sha1 BV.Sha1.hashList; rw [byteArray_toList_length, sha1_size]
+  have er : ∀ b, (BV.C06.ripemd160 b).length = 20 := fun b => by
+    unfold BV.C06.ripemd160 BV.Ripemd160.hashList; rw [byteArray_toList_length, ripemd160_size]
+  refine ⟨fun b => ?_, fun b => ?_, fun b => ?_, fun b => ?_, fun b => ?_⟩
+  · rw [er]; decide
+  · rw [e1]; decide
+  · rw [e256]; decide
+  · unfold BV.C06.hash160; rw [er]; decide
+  · unfold BV.C06.hash256 BV.Sha256.hash2List BV.Sha256.hash2
+    rw [byteArray_toList_length, sha256_size]; decide
+
 end BV.C06.Lemmas
